@@ -9,3 +9,5 @@ def rules(ctx):
     S.c06_r4_rebuild(ctx)
     S.c11_rules(ctx)
     S.c02_r5_free_leaves_caches(ctx)
+
+    S.compaction_target_rules(ctx)
